@@ -1295,5 +1295,10 @@ Definition validator_keys : list str := [(s2l "ID");(s2l "NCName");(s2l "dateTim
 (* class ids of the rows recorded as C12 findings in known_findings.json *)
 Definition known_bad_rows : list N := [393;398;399;400;892;893;1117;1120;1129;1130].
 
+(* rows recorded as C13 findings in known_findings.json *)
+Definition known_unresolved_attr : list (N * N) := [(0,15);(1,18);(5,26);(23,26);(30,68);(48,68);(49,68);(50,68);(94,15);(95,18);(99,26);(110,51);(112,51);(117,26);(124,68);(142,68);(143,68);(144,68);(164,117);(165,117);(188,15);(189,18);(193,26);(211,26);(218,68);(236,68);(237,68);(238,68);(282,15);(283,18);(287,26);(305,26);(312,68);(330,68);(331,68);(332,68);(376,15);(377,18);(381,26);(403,26);(470,15);(471,18);(475,26);(486,37);(486,39);(486,41);(489,37);(489,39);(489,41);(493,26);(502,68);(520,68);(521,68);(522,68);(565,661);(565,663);(567,661);(567,663);(571,671);(571,673);(575,671);(575,673);(600,710);(601,734);(601,735);(605,710);(606,734);(606,735);(611,757);(612,757);(614,764);(614,766);(614,768);(614,770);(615,764);(615,766);(615,768);(615,770);(619,757);(626,734);(626,735);(630,734);(630,735);(700,918);(700,920);(701,918);(701,920);(703,918);(703,920);(704,918);(704,920);(706,918);(706,920);(706,937);(707,918);(707,920);(707,940);(708,918);(708,920);(708,937);(709,918);(709,920);(709,940);(829,1159);(831,1165);(831,1166);(832,1165);(832,1166);(833,1172);(834,1159);(835,1159);(836,1159);(837,1159);(837,1166);(838,1165);(838,1166);(839,1172);(840,1159);(841,1159);(842,1159);(842,1166);(843,1159);(843,1172);(844,1159);(844,1172);(867,1213);(877,1159);(882,1213);(926,1300);(933,1300);(939,1300);(939,1319);(942,1300);(947,1300);(947,1319)].
+Definition known_unenforced_enum : list N := [2;7;8;14;96;101;102;108;190;195;196;202;284;289;290;296;378;383;384;390;472;477;478;483;620;621;828;830;897;900;952;956;959;966;976;986].
+Definition known_unresolved_vtype : list N := [568;573;901;911;988].
+
 (* a real object (samlp.Response with a signed-shape assertion, typed attribute values, foreign content) read back as a model instance *)
 Definition example_inst : inst := (I 822 [(177,(s2l "r1"));(1055,(s2l "2.0"));(1057,(s2l "2020-01-01T00:00:00Z"))] None [(1144,(I 815 [] None [(1141,(I 826 [(1155,(s2l "urn:oasis:names:tc:SAML:2.0:status:Success"))] None [] [] []))] [] []));(707,(I 766 [(1055,(s2l "2.0"));(177,(s2l "a1"));(1057,(s2l "2020-01-01T00:00:00Z"))] None [(915,(I 716 [] (Some (s2l "https://idp.example.org")) [] [] []));(0,(I 760 [] None [(1010,(I 737 [(953,(s2l "urn:oasis:names:tc:SAML:2.0:nameid-format:persistent"))] (Some (s2l "user<1>")) [] [] []))] [] []));(1051,(I 757 [(966,(s2l "2020-01-01T00:00:00Z"))] None [(1019,(I 749 [] None [(979,(I 722 [] (Some (s2l "sp1")) [] [] []));(979,(I 722 [] (Some (s2l "sp2")) [] [] []))] [] []))] [] []));(1,(I 759 [] None [(705,(I 751 [(765,(s2l "mail"));(767,(s2l "urn:oasis:names:tc:SAML:2.0:attrname-format:uri"))] None [(763,(I 734 [] (Some (s2l "a@b")) [] [(12,(s2l "xs:string"));(13,(s2l "http://www.w3.org/2001/XMLSchema"))] []));(763,(I 734 [] (Some (s2l "c&d")) [] [(12,(s2l "xs:string"));(13,(s2l "http://www.w3.org/2001/XMLSchema"))] []))] [] []));(705,(I 751 [(765,(s2l "empty"));(767,(s2l "urn:oasis:names:tc:SAML:2.0:attrname-format:uri"))] None [(763,(I 734 [] (Some ([]:str)) [] [(11,(s2l "true"))] []))] [] []))] [] []))] [] [(X 2209 [] None [(X 2210 [] (Some (s2l "z")) [])])]))] [(2211,(s2l "1"))] [(X 2212 [(2213,(s2l "v"))] (Some (s2l "t")) [])]).
